@@ -17,6 +17,12 @@ def one(sid, tier):
                        env=dict(os.environ, VERIF_STOP_AT_FIRST_VIOLATION='1'))
     m = re.search(r'== %s: exit=(\d+)' % prop, p.stdout)
     rc = int(m.group(1)) if m else None
+    if rc != 1:
+        # a violation that depends on state left by EARLIER jobs of the same worker cannot be confirmed from the first failing job alone:
+        # run the check to the end, as the registered command does
+        p = subprocess.run([f'{HOME}/tools/try_patch.py', f'{HOME}/seeded/{sid}/patch.diff', '--tier', tier, prop], capture_output=True, text=True)
+        m = re.search(r'== %s: exit=(\d+)' % prop, p.stdout)
+        rc = int(m.group(1)) if m else None
     sigs = re.findall(r'sig=(\S+)', p.stdout)
     return sid, {'property': prop, 'tier': tier, 'exit': rc, 'detected': rc == 1, 'signatures': sigs[:6], 'wall_s': round(time.time() - t0, 1),
                  'summary': meta.get('summary', '')[:300], 'tail': '' if rc == 1 else p.stdout[-600:]}
